@@ -327,8 +327,8 @@ fn fri_verify_layers(
 //@end
 
 /// the first-layer queries: (index, value, inverse of the point translated to the homogeneous group)
-pub open spec fn first_seq(queries: Seq<Felt>, d: &FriDecommitment) -> Seq<FQ> {
-    Seq::new(queries.len(), |i: int| FQ { index: queries[i]@, y: d.values@[i]@, xinv: fdiv(1, fmul(d.points@[i]@, INV3)) })
+pub open spec fn first_seq(queries: Seq<Felt>, values: Seq<nat>, points: Seq<nat>) -> Seq<FQ> {
+    Seq::new(queries.len(), |i: int| FQ { index: queries[i]@, y: values[i], xinv: fdiv(1, fmul(points[i], INV3)) })
 }
 pub proof fn lemma_inverse_nonzero(x: nat)
     requires 0 < x < P
@@ -339,26 +339,26 @@ pub proof fn lemma_inverse_nonzero(x: nat)
     assert(fdiv(1, x) == finv(x)) by { assert(1 * finv(x) == finv(x)); }
     if finv(x) == 0 { assert(x * 0 == 0); lemma_small_mod(0, P); }
 }
-pub proof fn lemma_first_layer_nonzero(queries: Seq<Felt>, d: &FriDecommitment)
-    requires d.points@.len() == queries.len(), d.values@.len() == queries.len(), forall|i: int| 0 <= i < d.points@.len() ==> (#[trigger] d.points@[i])@ != 0
-    ensures all_xinv_nonzero(first_seq(queries, d))
+pub proof fn lemma_first_layer_nonzero(queries: Seq<Felt>, values: Seq<nat>, points: Seq<nat>)
+    requires points.len() == queries.len(), values.len() == queries.len(), forall|i: int| 0 <= i < points.len() ==> 0 < #[trigger] points[i] < P
+    ensures all_xinv_nonzero(first_seq(queries, values, points))
 {
     broadcast use {crate::prelude::axiom_field_integral, crate::prelude::group_felt};
     lemma_inv3();
-    let first = first_seq(queries, d);
+    let first = first_seq(queries, values, points);
     assert forall|i: int| 0 <= i < first.len() implies 0 < (#[trigger] first[i]).xinv < P && first[i].index < P by {
-        let x = fmul(d.points@[i]@, INV3);
-        assert(d.points@[i]@ != 0);
+        let x = fmul(points[i], INV3);
+        assert(points[i] != 0);
         assert(x != 0);
         lemma_inverse_nonzero(x);
     }
 }
 
 /// ORACLE (property C07): what a successful fri_verify means
-pub open spec fn fri_verify_ok(queries: Seq<Felt>, c: &FriCommitment, d: &FriDecommitment, w: &Witness, group: Seq<nat>) -> bool {
+pub open spec fn fri_verify_ok(queries: Seq<Felt>, c: &FriCommitment, values: Seq<nat>, points: Seq<nat>, w: &Witness, group: Seq<nat>) -> bool {
     let n = (c.config.n_layers@ - 1) as nat;
-    let first = first_seq(queries, d);
-    &&& queries.len() == d.values@.len()
+    let first = first_seq(queries, values, points);
+    &&& queries.len() == values.len()
     &&& layers_walk(first, 0, n, c.inner_layers@, w.layers@, c.eval_points@, c.config.fri_step_sizes@.subrange(1, c.config.fri_step_sizes@.len() as int), group) is Some
     &&& c.last_layer_coefficients@.len() == pow2(c.config.log_last_layer_degree_bound@)
     &&& ({
@@ -369,15 +369,15 @@ pub open spec fn fri_verify_ok(queries: Seq<Felt>, c: &FriCommitment, d: &FriDec
 pub open spec fn poly_ok(q: FQ, c: Seq<nat>) -> bool { crate::swiftness_fri::last_layer::poly_eval(c, fdiv(1, q.xinv)) == q.y }
 
 /// interior precondition of fri_verify: the commitment comes from fri_commit under a validated config, the points from queries_to_points
-pub open spec fn fri_verify_pre(queries: Seq<Felt>, c: &FriCommitment, d: &FriDecommitment) -> bool {
+pub open spec fn fri_verify_pre(queries: Seq<Felt>, c: &FriCommitment, points: Seq<Felt>) -> bool {
     &&& 2 <= c.config.n_layers@ <= 15
     &&& c.config.log_last_layer_degree_bound@ <= 15
     &&& c.config.fri_step_sizes@.len() >= c.config.n_layers@
     &&& (forall|k: int| 1 <= k < c.config.n_layers@ ==> 1 <= (#[trigger] c.config.fri_step_sizes@[k])@ <= 4)
     &&& c.inner_layers@.len() >= c.config.n_layers@ - 1
     &&& c.eval_points@.len() >= c.config.n_layers@ - 1
-    &&& d.points@.len() == queries.len()
-    &&& (forall|i: int| 0 <= i < d.points@.len() ==> (#[trigger] d.points@[i])@ != 0)
+    &&& points.len() == queries.len()
+    &&& (forall|i: int| 0 <= i < points.len() ==> (#[trigger] points[i])@ != 0)
     &&& queries.len() <= 0xffff_ffff
 }
 
@@ -389,9 +389,9 @@ pub fn fri_verify(
     witness: Witness,
 ) -> (r: Result<(), Error>)
     requires
-        fri_verify_pre(queries@, &commitment, &decommitment), // [C18:fri-verify-called-with-commitment-from-fri-commit-and-points-from-queries]
+        fri_verify_pre(queries@, &commitment, decommitment.points@), // [C18:fri-verify-called-with-commitment-from-fri-commit-and-points-from-queries]
     ensures
-        r.is_ok() <==> fri_verify_ok(queries@, &commitment, &decommitment, &witness, crate::swiftness_fri::group::fri_group_values()), // [C01,C02,C07:fri-ok-iff-lengths-match-every-inner-layer-decommits-and-last-layer-polynomial-agrees]
+        r.is_ok() <==> fri_verify_ok(queries@, &commitment, fv(decommitment.values@), fv(decommitment.points@), &witness, crate::swiftness_fri::group::fri_group_values()), // [C01,C02,C07:fri-ok-iff-lengths-match-every-inner-layer-decommits-and-last-layer-polynomial-agrees]
 {
     hide(fadd); hide(fsub); hide(fmul);
     if queries.len() != decommitment.values.len() {
@@ -400,8 +400,8 @@ pub fn fri_verify(
             actual: decommitment.values.len(),
         });
     }
-    let ghost first = first_seq(queries@, &decommitment);
-    proof { lemma_first_layer_nonzero(queries@, &decommitment); }
+    let ghost first = first_seq(queries@, fv(decommitment.values@), fv(decommitment.points@));
+    proof { lemma_first_layer_nonzero(queries@, fv(decommitment.values@), fv(decommitment.points@)); }
 
     // Compute first FRI layer queries.
     let fri_queries = gather_first_layer_queries(queries, decommitment.values, decommitment.points);
